@@ -123,7 +123,8 @@ def run_shard(shard: dict, ctx, res, only=None) -> None:
     tsamp = TSAMPS[shard["tsamp"]]
     nbits = shard["nbits"]
     X = fx.label_data(N, C, nbits, ctx.seed)
-    paths = fx.make_fileset(wd, X, nbits, [N], fch1=fch1, foff=foff, tsamp=tsamp, tstart=58000.25)
+    # every other channelisation: the input itself carries a non-zero reference DM (products made at DM 0 must still say 0)
+    paths = fx.make_fileset(wd, X, nbits, [N], fch1=fch1, foff=foff, tsamp=tsamp, tstart=58000.25, extra=[("refdm", 56.75)] if shard["chan"] % 2 else None)
     fil = FilReader(paths)
     H = fil.header
     chk = _Chk(H, res, shard)
@@ -160,14 +161,15 @@ def run_shard(shard: dict, ctx, res, only=None) -> None:
 
             guard("Filterbank.collapse", [start, n_eff], f_collapse)
 
-            def f_dd(start=start, rk=rk, n_eff=n_eff):
-                d = np.asarray(H.get_dmdelays(dm_pos))
-                if d.min() < 0 or d.max() >= n_eff:
-                    return
-                ts = fil.dedisperse(dm_pos, **rk)
-                chk.check("Filterbank.dedisperse", [start, n_eff], ts.header, shape=(ts.data.size, 1), src=[list(range(C))], start=start, dm=dm_pos)
+            for dmv in (dm_pos, 0.0):
+                def f_dd(start=start, rk=rk, n_eff=n_eff, dmv=dmv):
+                    d = np.asarray(H.get_dmdelays(dmv))
+                    if d.min() < 0 or d.max() >= n_eff:
+                        return
+                    ts = fil.dedisperse(dmv, **rk)
+                    chk.check("Filterbank.dedisperse", [start, n_eff, dmv], ts.header, shape=(ts.data.size, 1), src=[list(range(C))], start=start, dm=dmv)
 
-            guard("Filterbank.dedisperse", [start, n_eff], f_dd)
+                guard("Filterbank.dedisperse", [start, n_eff, dmv], f_dd)
             for c in range(C):
                 def f_rc(c=c, start=start, rk=rk, n_eff=n_eff):
                     ts = fil.read_chan(c, **rk)
@@ -246,17 +248,17 @@ def run_shard(shard: dict, ctx, res, only=None) -> None:
                 cb.check("FilterbankBlock.downsample", [ff, tf], b.header, shape=(b.data.shape[1], b.data.shape[0]), src=src, tfactor=tf)
 
             guard("FilterbankBlock.downsample", [ff, tf], f_bd)
-        for valid in (False, True):
-            def f_bdd(valid=valid):
-                d = np.asarray(Hb.get_dmdelays(dm_pos))
+        for valid, dmv in [(v_, d_) for v_ in (False, True) for d_ in (dm_pos, 0.0)]:
+            def f_bdd(valid=valid, dmv=dmv):
+                d = np.asarray(Hb.get_dmdelays(dmv))
                 if valid and d.max() - min(0, d.min()) >= 10:
                     return
-                b = blk.dedisperse(dm_pos, only_valid_samples=valid)
-                cb.check("FilterbankBlock.dedisperse", [valid], b.header, shape=(b.data.shape[1], b.data.shape[0]), src=allc, dm=dm_pos, dm_field=b.dm)
+                b = blk.dedisperse(dmv, only_valid_samples=valid)
+                cb.check("FilterbankBlock.dedisperse", [valid, dmv], b.header, shape=(b.data.shape[1], b.data.shape[0]), src=allc, dm=dmv, dm_field=b.dm)
                 t = b.get_tim()
-                cb.check("FilterbankBlock.get_tim", [valid], t.header, shape=(t.data.size, 1), src=[list(range(C))], dm=dm_pos)
+                cb.check("FilterbankBlock.get_tim", [valid, dmv], t.header, shape=(t.data.size, 1), src=[list(range(C))], dm=dmv)
 
-            guard("FilterbankBlock.dedisperse", [valid], f_bdd)
+            guard("FilterbankBlock.dedisperse", [valid, dmv], f_bdd)
 
         def f_dmt():
             b = blk.dmt_transform(2.0, dmsteps=4)
@@ -374,19 +376,19 @@ def run_shard(shard: dict, ctx, res, only=None) -> None:
                                   file_nbits=disk_nbits(nb, n_eff, cps), kind="file")
 
                 guard("Filterbank.extract_bands", [cs, nch, cps, bsz, start], f_eb)
-            for nsub in (1, 2, 4, 8):
-                def f_sb(nsub=nsub, start=start, rk=rk, n_eff=n_eff):
-                    d = np.asarray(H.get_dmdelays(dm_pos))
+            for nsub, dmv in [(n_, d_) for n_ in (1, 2, 4, 8) for d_ in (dm_pos, 0.0)]:
+                def f_sb(nsub=nsub, start=start, rk=rk, n_eff=n_eff, dmv=dmv):
+                    d = np.asarray(H.get_dmdelays(dmv))
                     if d.min() < 0 or d.max() >= n_eff:
                         return
-                    fil.subband(dm_pos, nsub, outfile_name=out, **rk)
+                    fil.subband(dmv, nsub, outfile_name=out, **rk)
                     h, nb = hdr_of(out)
                     sf = C // nsub
                     ns_o = n_eff - int(d.max())
-                    chk.check("Filterbank.subband", [nsub, start], h, shape=(ns_o, nsub), src=[list(range(i * sf, (i + 1) * sf)) for i in range(nsub)],
-                              start=start, dm=dm_pos, file_nbits=disk_nbits(nb, ns_o, nsub), kind="file")
+                    chk.check("Filterbank.subband", [nsub, start, dmv], h, shape=(ns_o, nsub), src=[list(range(i * sf, (i + 1) * sf)) for i in range(nsub)],
+                              start=start, dm=dmv, file_nbits=disk_nbits(nb, ns_o, nsub), kind="file")
 
-                guard("Filterbank.subband", [nsub, start], f_sb)
+                guard("Filterbank.subband", [nsub, start, dmv], f_sb)
 
             def f_zdm(start=start, rk=rk, n_eff=n_eff):
                 fil.remove_zerodm(outfile_name=out, **rk)
